@@ -734,15 +734,36 @@ impl<V: DeepClone> DeepClone for HashMap<Name, V> {
     }
 }
 
+/// Is `e` the failure to find the object that the primitive `p` refers to?
+/// (A reference to a free, undefined or out-of-table object number is equivalent to null.)
+pub fn is_missing_reference(p: &Primitive, e: &PdfError) -> bool {
+    let id = match *p {
+        Primitive::Reference(r) => r.id,
+        _ => return false
+    };
+    // the error may have been wrapped on its way up
+    let mut e = e;
+    loop {
+        match *e {
+            PdfError::Try { ref source, .. } => e = source,
+            PdfError::Shared { ref source } => e = source,
+            PdfError::NullRef { obj_nr } | PdfError::FreeObject { obj_nr } => return obj_nr == id,
+            PdfError::UnspecifiedXRefEntry { id: nr } => return nr == id,
+            _ => return false
+        }
+    }
+}
+
 impl<T: Object> Object for Option<T> {
     fn from_primitive(p: Primitive, resolve: &impl Resolve) -> Result<Self> {
         match p {
             Primitive::Null => Ok(None),
-            p => match T::from_primitive(p, resolve) {
+            p => match T::from_primitive(p.clone(), resolve) {
                 Ok(p) => Ok(Some(p)),
                 // References to non-existing objects ought not to be an error
                 Err(PdfError::NullRef {..}) => Ok(None),
                 Err(PdfError::FreeObject {..}) => Ok(None),
+                Err(ref e) if is_missing_reference(&p, e) => Ok(None),
                 Err(e) if resolve.options().allow_error_in_option => {
                     warn!("ignoring {:?}", e);
                     Ok(None)
